@@ -48,7 +48,7 @@ Example ex_unexported_x : render opaque (PFmt "x" no_flags) (SField false SBare)
 Proof. vm_compute. reflexivity. Qed.
 Example ex_zap_key : render opaque PZapAny SMapKey "s3cr3t" = "{" ++ dquote ++ "k" ++ dquote ++ ":{" ++ dquote ++ "s3cr3t" ++ dquote ++ ":" ++ dquote ++ "v" ++ dquote ++ "}}".
 Proof. vm_compute. reflexivity. Qed.
-Example ex_squash : unmarshal opaque UConfSquashUnmarshaler "s3cr3t" = "[REDACTED]" /\ unmarshal opaque UConfSquashPlain "s3cr3t" = "s3cr3t".
+Example ex_squash : unmarshal opaque UConfSquashUnmarshaler "s3cr3t" = Stored "[REDACTED]" /\ unmarshal opaque UConfSquashPlain "s3cr3t" = Stored "s3cr3t".
 Proof. vm_compute. split; reflexivity. Qed.
 
 (* a method table that looks at the secret is NOT constant: the hypothesis of the central theorem
@@ -63,10 +63,25 @@ Qed.
 
 (* methods_agree is strictly weaker than constancy: the leaky table agrees on equal String() results only *)
 Example ex_agree : methods_agree opaque "a" "b" /\ ~ methods_agree leaky "a" "b".
-Proof. split; [vm_compute; repeat split|intros [H _]; discriminate]. Qed.
+Proof. split; [vm_compute; repeat split|intros [[H _] _]; discriminate]. Qed.
 
 (* hypotheses of fmt_unrouted_verb_reveals_any_flags *)
 Example ex_any_flags : let f := F true true true true true None None in
   good_verb "d" = false /\ f_wid f = None /\ f_prec f = None /\ (String.eqb "d" "w" && f_sharp f = false) /\
   render opaque (PFmt "d" f) SBare "s3cr3t" = "%!d(configopaque.String=s3cr3t)".
+Proof. vm_compute. repeat split. Qed.
+
+(* two opaque keys collide on the marker: the config-map encoder fails, and its error text (also
+   when wrapped by the enclosing struct) shows the ENCODED key only; fmt and json for comparison *)
+Example ex_dupkey : render opaque PConfmap (SField true SMapKey2) "s3cr3t"
+  = "ERR error encoding field " ++ dquote ++ "f" ++ dquote ++ ": duplicate key " ++ dquote ++ "[REDACTED]" ++ dquote ++ " while encoding".
+Proof. vm_compute. reflexivity. Qed.
+Example ex_dupkey_fmt : render opaque (PFmt "v" no_flags) SMapKey2 "s3cr3t" = "map[[REDACTED]:v [REDACTED]:w]"
+  /\ safe PConfmap (SField true SMapKey2) = true /\ safe (PFmt "v" no_flags) SMapKey2 = true.
+Proof. vm_compute. repeat split. Qed.
+
+(* decoding contexts *)
+Example ex_expand : plain_ctx UExpScalar = true /\ plain_ctx (UExpPtr YStr) = true /\
+  unmarshal opaque UExpScalar "987654321" = Stored "987654321" /\ unmarshal opaque UExpMapVal "null" = Stored "null" /\
+  unmarshal opaque (UExpPtr YOther) "987654321" = DecodeError.
 Proof. vm_compute. repeat split. Qed.
